@@ -42,7 +42,10 @@ def first_diff(a1, a2, path="/"):
         for p, q in zip(a1["props"], a2["props"]):
             if p != q:
                 return {"path": path, "what": "prop", "a": p, "b": q}
-        return {"path": path, "what": "prop-count", "a": len(a1["props"]), "b": len(a2["props"])}
+        n1, n2 = len(a1["props"]), len(a2["props"])
+        if n1 > n2:      # the second parse lost the trailing property
+            return {"path": path, "what": "prop", "a": a1["props"][n2], "b": None}
+        return {"path": path, "what": "prop-count", "a": n1, "b": n2}
     if len(a1["kids"]) != len(a2["kids"]):
         return {"path": path, "what": "kids", "a": len(a1["kids"]), "b": len(a2["kids"])}
     for i, (x, y) in enumerate(zip(a1["kids"], a2["kids"])):
